@@ -218,6 +218,70 @@ func (cx *c04ctx) collect() bool {
 		return true
 	})
 	if cx.n == nil {
+		// the barrier may live in a helper that is handed the channel and the counter
+		core.InspectNoLit(body, func(n ast.Node) bool {
+			call, ok := n.(*ast.CallExpr)
+			if !ok || cx.n != nil {
+				return true
+			}
+			chIdx := -1
+			for i, a := range call.Args {
+				if id, ok := ast.Unparen(a).(*ast.Ident); ok && cx.info.Uses[id] == cx.ch {
+					chIdx = i
+				}
+			}
+			fid, ok := ast.Unparen(call.Fun).(*ast.Ident)
+			if chIdx < 0 || !ok {
+				return true
+			}
+			hobj, ok := cx.info.Uses[fid].(*types.Func)
+			if !ok {
+				return true
+			}
+			hfn := cx.p.SSA.FuncValue(hobj)
+			hsyn := cx.p.Syntax(hfn)
+			if hfn == nil || hsyn == nil || hsyn.Decl == nil || hsyn.Decl.Type.Params == nil {
+				return true
+			}
+			var params []types.Object
+			for _, f := range hsyn.Decl.Type.Params.List {
+				for _, nm := range f.Names {
+					params = append(params, hsyn.Pkg.TypesInfo.Defs[nm])
+				}
+			}
+			if chIdx >= len(params) {
+				return true
+			}
+			// the helper's parameter tested `> 0` by a loop that receives from the channel parameter
+			ast.Inspect(hsyn.Decl.Body, func(x ast.Node) bool {
+				fs, ok := x.(*ast.ForStmt)
+				if !ok || fs.Cond == nil || core.CountRecv(hsyn.Pkg.TypesInfo, fs.Body, params[chIdx]) == 0 {
+					return true
+				}
+				ast.Inspect(fs.Cond, func(y ast.Node) bool {
+					be, ok := y.(*ast.BinaryExpr)
+					if !ok || (be.Op != token.GTR && be.Op != token.NEQ) {
+						return true
+					}
+					id, ok := ast.Unparen(be.X).(*ast.Ident)
+					if !ok {
+						return true
+					}
+					for i, po := range params {
+						if po == hsyn.Pkg.TypesInfo.Uses[id] && i < len(call.Args) {
+							if aid, ok := ast.Unparen(call.Args[i]).(*ast.Ident); ok {
+								cx.n = cx.info.Uses[aid]
+							}
+						}
+					}
+					return true
+				})
+				return true
+			})
+			return true
+		})
+	}
+	if cx.n == nil {
 		cx.r.Undecided("C04.R2", cx.name, "barrier loop", cx.p.Pos(body.Pos()), "no loop `for n > 0 { … <-ch … }` found (sync.WaitGroup / errgroup are not used by this code base; any other idiom is undecided)")
 		return false
 	}
@@ -540,7 +604,7 @@ func (cx *c04ctx) r2r3r5() {
 	if len(barriers) == 0 {
 		core.InspectNoLit(body, func(n ast.Node) bool {
 			as, ok := n.(*ast.AssignStmt)
-			if !ok || len(as.Rhs) != 1 || len(as.Lhs) != 1 {
+			if !ok || len(as.Rhs) != 1 {
 				return true
 			}
 			call, ok := as.Rhs[0].(*ast.CallExpr)
@@ -553,6 +617,18 @@ func (cx *c04ctx) r2r3r5() {
 			}
 			hobj, ok := cx.info.Uses[fid].(*types.Func)
 			if !ok {
+				return true
+			}
+			// the error result of the helper and the variable it is assigned to
+			errIdx := -1
+			if sig, ok := hobj.Type().(*types.Signature); ok {
+				for i := 0; i < sig.Results().Len(); i++ {
+					if types.Identical(sig.Results().At(i).Type(), types.Universe.Lookup("error").Type()) {
+						errIdx = i
+					}
+				}
+			}
+			if errIdx < 0 || errIdx >= len(as.Lhs) {
 				return true
 			}
 			chIdx, nIdx := -1, -1
@@ -629,7 +705,7 @@ func (cx *c04ctx) r2r3r5() {
 			}
 			cx.r.Check(hdone != nil && !early, "C04.R2", sub.name, "helper returns after its barrier", cx.p.Pos(hsyn.Decl.Pos()), "every return of the waiting helper lies behind the exit of its barrier loop")
 			helperCall = call
-			if id, ok := as.Lhs[0].(*ast.Ident); ok {
+			if id, ok := as.Lhs[errIdx].(*ast.Ident); ok {
 				helperErr = cx.info.Uses[id]
 				if helperErr == nil {
 					helperErr = cx.info.Defs[id]
